@@ -390,10 +390,15 @@ theorem C05_source_facts :
 read from the bucket outlives the closure (`dbFetch` with `inTx = true`, `C05_db_read_is_snapshot`); a
 filter enters the memory cache through `putFilterToCache` only, and the only caller of that is
 `cfiltersQuery.handleResponse`, after every test passed (`accept`; any other fill would have to be a
-`cacheFillChecked`, `C05_cache_fill_validated`). -/
+`cacheFillChecked`, `C05_cache_fill_validated`).  `filterdb` and `headerfs` keep no package-level state
+shared by the stores of one process apart from the package logger and the pool of read buffers (`pkgLevelState`: every
+package-level `var` that is not a named byte string, an error value or a `var _` assertion): what a
+store holds depends on its own files and chain parameters only (`openStore` with `keyOf = id`,
+`C05_genesis_per_network`; `FHStore` with an empty `mem`, `C05_verification_headers_are_committed`). -/
 theorem C05_store_source_facts :
     Gen.Query.fetchDecodesInTx = true ∧
     Gen.Query.cachePutCallers = ["cfiltersQuery.handleResponse"] ∧
-    Gen.Query.cachePutSites = ["ChainService.putFilterToCache"] := by decide
+    Gen.Query.cachePutSites = ["ChainService.putFilterToCache"] ∧
+    Gen.Query.pkgLevelState = ["filterdb.log:other", "headerfs.headerBufPool:pool"] := by decide
 
 end Neutrino.GetCFilter
